@@ -38,6 +38,8 @@ func rulesC01(c *Ctx) {
 	// every set predicate walks a cursor of its own
 	ruleFreshSetCursor(c, "C01.FRESHCURSOR", "boltz", "objectz")
 	ruleToFloatIdentity(c, "C01.TOFLOAT")
+	ruleSeekOnlyAnyOf(c, "C01.SEEKANYOF")
+	ruleChainLeaf(c, "C01.CHAINLEAF")
 	ruleRawEntitiesCursor(c, "C01.RAWROWS")
 	ruleNeverWritten(c, "C01.FIELDS", astNodeTypes(c))
 	cts := c.cursorTypes()
